@@ -61,8 +61,12 @@ func (v *vigil) BeginVigil() {
 }
 
 func (v *vigil) CeaseVigil() {
+	// The decrement and the broadcast happen under the condition's lock, so that they cannot
+	// fall between a waiter's HasActiveVigils() check and its cond.Wait() (lost wake-up).
+	v.cond.L.Lock()
 	atomic.AddInt64(&v.vigils, -1)
 	v.cond.Broadcast()
+	v.cond.L.Unlock()
 }
 
 func (v *vigil) HasActiveVigils() bool {
